@@ -26,9 +26,8 @@ PROPS = {
     },
     "C04": {
         "theorems": ["C04_status_total", "C04_http_to_rpc", "C04_grpc_message_roundtrip", "C04_grpc_message_printable"],
-        "suites": [{"name": "status", "quick": 1, "thorough": 1}, {"name": "percent", "quick": 150, "thorough": 20000},
-                   {"name": "respflow", "quick": 1200, "thorough": 40000}],
-        "required_tags": ["status.from_rpc:small", "status.from_rpc:large", "status.to_rpc:sweep", "percent.grpc_decode:pairs", "percent.grpc_encode:single",
+        "suites": [{"name": "status", "quick": 1, "thorough": 1}, {"name": "percent", "quick": 150, "thorough": 20000}, {"name": "respflow", "quick": 1200, "thorough": 40000}, {"name": "restbind", "quick": 800, "thorough": 30000}],
+        "required_tags": ["restbind.kind:error", "status.from_rpc:small", "status.from_rpc:large", "status.to_rpc:sweep", "percent.grpc_decode:pairs", "percent.grpc_encode:single",
                           "respflow:error", "respflow:bare-http", "respflow:error-oddcode", "respflow:error-trailers-only"],
         "trivial_tags": ["empty"],
         "level_text": "wip", "level_note": "wip",
@@ -43,7 +42,7 @@ PROPS = {
     },
     "C08": {
         "theorems": [],
-        "suites": [{"name": "reader", "quick": 1200, "thorough": 40000}, {"name": "segments", "quick": 1600, "thorough": 40000}],
+        "suites": [{"name": "reader", "quick": 1200, "thorough": 40000}, {"name": "segments", "quick": 1600, "thorough": 40000}, {"name": "respflow", "quick": 600, "thorough": 20000}],
         "required_tags": ["reader.adapter:enveloping", "reader.adapter:transforming", "reader:cut", "reader:valid", "reader.meta:valid",
                           "segments.split:0", "segments.split:3", "segments:success", "segments:error"],
         "trivial_tags": [],
@@ -51,66 +50,64 @@ PROPS = {
     },
     "C02": {
         "theorems": [],
-        "suites": [{"name": "negotiate", "quick": 1500, "thorough": 40000}, {"name": "reader", "quick": 1200, "thorough": 40000}],
-        "required_tags": ["negotiate.outcome:backend", "negotiate.outcome:reject", "negotiate.outcome:unknown", "reader.adapter:transforming"],
+        "suites": [{"name": "negotiate", "quick": 1200, "thorough": 40000}, {"name": "reader", "quick": 1000, "thorough": 40000}, {"name": "timeouts", "quick": 800, "thorough": 20000}, {"name": "deadline", "quick": 400, "thorough": 10000}, {"name": "getpost", "quick": 500, "thorough": 10000}],
+        "required_tags": ["grpc_encode:unit-switch", "deadline:listed", "negotiate.outcome:backend", "negotiate.outcome:reject", "negotiate.outcome:unknown", "reader.adapter:transforming"],
         "trivial_tags": [],
         "level_text": "wip", "level_note": "wip",
     },
     "C03": {
         "theorems": [],
-        "suites": [{"name": "respflow", "quick": 1500, "thorough": 40000}],
-        "required_tags": ["respflow:success", "respflow:error", "respflow:bare-http", "respflow:error-trailers-only"],
+        "suites": [{"name": "respflow", "quick": 1200, "thorough": 40000}, {"name": "segments", "quick": 800, "thorough": 30000}, {"name": "limits", "quick": 800, "thorough": 20000}, {"name": "dispatch", "quick": 600, "thorough": 20000}],
+        "required_tags": ["segments:error", "limits.dir:response", "dispatch.outcome:reject", "respflow:success", "respflow:error", "respflow:bare-http", "respflow:error-trailers-only"],
         "trivial_tags": [],
         "level_text": "wip", "level_note": "wip",
     },
     "C05": {
         "theorems": [],
-        "suites": [{"name": "respflow", "quick": 1500, "thorough": 40000}, {"name": "negotiate", "quick": 1000, "thorough": 30000}],
-        "required_tags": ["respflow:success", "respflow:error", "negotiate.outcome:backend"],
+        "suites": [{"name": "respflow", "quick": 1500, "thorough": 40000}, {"name": "negotiate", "quick": 1000, "thorough": 30000}, {"name": "dispatch", "quick": 600, "thorough": 20000}],
+        "required_tags": ["dispatch.outcome:backend", "respflow:success", "respflow:error", "negotiate.outcome:backend"],
         "trivial_tags": [],
         "level_text": "wip", "level_note": "wip",
     },
     "C13": {
         "theorems": [],
-        "suites": [{"name": "dispatch", "quick": 2000, "thorough": 50000}],
+        "suites": [{"name": "dispatch", "quick": 2000, "thorough": 50000}, {"name": "negotiate", "quick": 600, "thorough": 20000}],
         "required_tags": ["dispatch.outcome:backend", "dispatch.outcome:unknown", "dispatch.outcome:reject", "dispatch:unmatched"],
         "trivial_tags": [],
         "level_text": "wip", "level_note": "wip",
     },
     "C18": {
         "theorems": [],
-        "suites": [{"name": "dispatch", "quick": 1500, "thorough": 50000}, {"name": "negotiate", "quick": 1000, "thorough": 30000}],
-        "required_tags": ["dispatch.outcome:backend", "dispatch.outcome:unknown", "dispatch.outcome:reject", "negotiate.outcome:reject"],
+        "suites": [{"name": "dispatch", "quick": 1500, "thorough": 50000}, {"name": "negotiate", "quick": 1000, "thorough": 30000}, {"name": "timeouts", "quick": 600, "thorough": 20000}, {"name": "deadline", "quick": 400, "thorough": 10000}],
+        "required_tags": ["connect_extract:mutated", "deadline:listed", "dispatch.outcome:backend", "dispatch.outcome:unknown", "dispatch.outcome:reject", "negotiate.outcome:reject"],
         "trivial_tags": [],
         "level_text": "wip", "level_note": "wip",
     },
     "C10": {
         "theorems": [],
-        "suites": [{"name": "limits", "quick": 1500, "thorough": 40000}, {"name": "reader", "quick": 800, "thorough": 20000}],
+        "suites": [{"name": "limits", "quick": 1500, "thorough": 40000}, {"name": "reader", "quick": 800, "thorough": 20000}, {"name": "segments", "quick": 600, "thorough": 20000}],
         "required_tags": ["limits.fit:fits", "limits.fit:over", "limits:bomb", "limits:reencoded", "limits.dir:request", "limits.dir:response"],
         "trivial_tags": [],
         "level_text": "wip", "level_note": "wip",
     },
     "C09": {
         "theorems": [],
-        "suites": [{"name": "reader", "quick": 1500, "thorough": 40000}, {"name": "respflow", "quick": 1200, "thorough": 40000}, {"name": "envelopes", "quick": 1, "thorough": 1}],
-        "required_tags": ["reader:cut", "reader:cut-after-prefix", "reader:cut-in-prefix", "reader:cut-last-byte", "reader:cut-at-boundary", "reader:badflag", "reader:corrupt", "reader:garbage", "reader:lenlie", "respflow:success+cut", "env.decode:grpc-server"],
+        "suites": [{"name": "reader", "quick": 1500, "thorough": 40000}, {"name": "respflow", "quick": 1200, "thorough": 40000}, {"name": "envelopes", "quick": 1, "thorough": 1}, {"name": "limits", "quick": 800, "thorough": 20000}, {"name": "segments", "quick": 600, "thorough": 20000}],
+        "required_tags": ["limits:bomb", "reader:cut", "reader:cut-after-prefix", "reader:cut-in-prefix", "reader:cut-last-byte", "reader:cut-at-boundary", "reader:badflag", "reader:corrupt", "reader:garbage", "reader:lenlie", "respflow:success+cut", "env.decode:grpc-server"],
         "trivial_tags": [],
         "level_text": "wip", "level_note": "wip",
     },
     "C01": {
         "theorems": [],
-        "suites": [{"name": "reader", "quick": 1500, "thorough": 40000}, {"name": "respflow", "quick": 1200, "thorough": 40000}],
-        "required_tags": ["reader:valid", "reader.adapter:enveloping", "reader.adapter:transforming", "respflow:success"],
+        "suites": [{"name": "reader", "quick": 1200, "thorough": 40000}, {"name": "respflow", "quick": 1000, "thorough": 40000}, {"name": "limits", "quick": 800, "thorough": 20000}, {"name": "segments", "quick": 600, "thorough": 20000}],
+        "required_tags": ["limits.fit:over", "segments:success", "reader:valid", "reader.adapter:enveloping", "reader.adapter:transforming", "respflow:success"],
         "trivial_tags": [],
         "level_text": "wip", "level_note": "wip",
     },
     "C11": {
         "theorems": [],
-        "suites": [{"name": "respflow", "quick": 1000, "thorough": 40000}, {"name": "reader", "quick": 800, "thorough": 30000},
-                   {"name": "dispatch", "quick": 800, "thorough": 30000}, {"name": "negotiate", "quick": 600, "thorough": 30000},
-                   {"name": "restbind", "quick": 800, "thorough": 30000}],
-        "required_tags": ["respflow:error-oddcode", "respflow:bare-http", "reader:badflag", "dispatch:unmatched+rawbody", "respflow:readfault", "restbind.kind:invalid"],
+        "suites": [{"name": "respflow", "quick": 800, "thorough": 40000}, {"name": "reader", "quick": 800, "thorough": 30000}, {"name": "dispatch", "quick": 800, "thorough": 30000}, {"name": "negotiate", "quick": 600, "thorough": 30000}, {"name": "restbind", "quick": 800, "thorough": 30000}, {"name": "limits", "quick": 600, "thorough": 20000}, {"name": "timeouts", "quick": 500, "thorough": 20000}, {"name": "segments", "quick": 500, "thorough": 20000}],
+        "required_tags": ["connect_extract:mutated", "limits.fit:over", "respflow:error-oddcode", "respflow:bare-http", "reader:badflag", "dispatch:unmatched+rawbody", "respflow:readfault", "restbind.kind:invalid"],
         "trivial_tags": [],
         "level_text": "wip", "level_note": "wip",
     },
@@ -138,22 +135,22 @@ PROPS = {
     "C07": {
         "theorems": [],
         "suites": [{"name": "restbind", "quick": 2000, "thorough": 60000}, {"name": "percent", "quick": 150, "thorough": 10000}, {"name": "router", "quick": 800, "thorough": 20000}],
-        "required_tags": ["restbind.kind:rest-client", "restbind.kind:chain", "restbind.kind:invalid", "restbind.kind:error", "restbind:UpdateBook", "restbind:GetCheckout", "path.escape:pairs"],
+        "required_tags": ["restbind.httpbody:upload-rpc", "restbind.httpbody:upload-rest", "restbind.httpbody:index-rpc", "restbind.httpbody:index-rest", "restbind.ct:other", "restbind.kind:rest-client", "restbind.kind:chain", "restbind.kind:invalid", "restbind.kind:error", "restbind:UpdateBook", "restbind:GetCheckout", "path.escape:pairs"],
         "trivial_tags": [],
         "level_text": "wip", "level_note": "wip",
     },
     "C14": {
         "theorems": [],
-        "suites": [{"name": "concurrent", "quick": 400, "thorough": 6000}, {"name": "histories", "quick": 300, "thorough": 4000}],
+        "suites": [{"name": "concurrent", "quick": 400, "thorough": 6000}, {"name": "histories", "quick": 300, "thorough": 4000}, {"name": "restbind", "quick": 600, "thorough": 20000}],
         "race": [{"name": "concurrent", "quick": 150, "thorough": 3000}],
-        "required_tags": ["concurrent:duplex", "concurrent:valid", "concurrent:corrupt", "pool.trace:concurrent", "pool.trace:history"],
+        "required_tags": ["restbind.httpbody:upload-rest", "concurrent:duplex", "concurrent:valid", "concurrent:corrupt", "pool.trace:concurrent", "pool.trace:history"],
         "trivial_tags": [],
         "level_text": "wip", "level_note": "wip",
     },
     "C15": {
         "theorems": [],
-        "suites": [{"name": "histories", "quick": 600, "thorough": 10000}, {"name": "poolops", "quick": 600, "thorough": 20000}],
-        "required_tags": ["poolops.len:5", "histories:valid", "histories:cut", "histories:corrupt", "histories:overlimit", "histories:backend-panic", "histories:validation", "pool.trace:history"],
+        "suites": [{"name": "histories", "quick": 600, "thorough": 10000}, {"name": "poolops", "quick": 600, "thorough": 20000}, {"name": "restbind", "quick": 600, "thorough": 20000}],
+        "required_tags": ["restbind.kind:chain", "poolops.len:5", "histories:valid", "histories:cut", "histories:corrupt", "histories:overlimit", "histories:backend-panic", "histories:validation", "pool.trace:history"],
         "trivial_tags": [],
         "level_text": "wip", "level_note": "wip",
     },
